@@ -78,6 +78,9 @@ def enc (M : Meta) : List (Nat × Bytes) → Nat → Bytes
   | [], _ => []
   | (b, v) :: r, off => zeros (padTo (M.align b) off) ++ v ++ enc M r (off + padTo (M.align b) off + v.length)
 
+/-- offset (from the start of the radiotap header) right after the fields `fs` laid out from `off` -/
+def encEnd (M : Meta) (fs : List (Nat × Bytes)) (off : Nat) : Nat := off + (enc M fs off).length
+
 /-- OR of the present flags of the listed fields -/
 def presentWord (fs : List (Nat × Bytes)) : Nat := fs.foldl (fun w f => w ||| 2 ^ f.1) 0
 
@@ -116,6 +119,11 @@ def Frame.lastWord (F : Frame) : Nat := read32 F.wsb (4 * (F.k - 1))
 
 def layL (M : Meta) (F : Frame) (fs : List (Nat × Bytes)) : Bytes :=
   le32 (presentWord fs ||| F.hb) ++ F.wsb ++ enc M fs F.base ++ F.tail
+
+/-- the header in which the bytes behind the first present word's fields are the fields `fsK` of the *last* present
+    word at their aligned offsets (what libtins' parser reads next), then `rest` (`F.tail` is not used) -/
+def lay2 (M : Meta) (F : Frame) (fs0 fsK : List (Nat × Bytes)) (rest : Bytes) : Bytes :=
+  layL M { F with tail := enc M fsK (encEnd M fs0 F.base) ++ rest } fs0
 
 /-- the frame is a well-formed chain: `hb` owns no table bit and fits 32 bits, the later words are whole, bit 31 is
     set in every word but the last -/
@@ -197,6 +205,22 @@ def decodeLayout (M : Meta) (buf : Bytes) : Option (Frame × List (Nat × Bytes)
       let F : Frame := { hb := w0 - w0 % 2 ^ M.max, wsb := (buf.drop 4).take (4 * k),
                          tail := buf.drop (4 + 4 * k + (enc M fs (8 + 4 * k)).length) }
       if layL M F fs == buf ∧ F.ok M then some (F, fs) else none
+
+/-- a well-aligned payload in which, in addition, the bytes behind the first present word's fields are the well-aligned
+    fields of the *last* present word (zero padding, every announced table field fits) followed by `rest`: first-word
+    fields (not empty), last-word fields, rest -/
+def decodeLayout2 (M : Meta) (buf : Bytes) : Option (Frame × List (Nat × Bytes) × List (Nat × Bytes) × Bytes) :=
+  match decodeLayout M buf with
+  | none => none
+  | some (F, fs0) =>
+    if F.k = 0 ∨ fs0 = [] then none else
+    let off := encEnd M fs0 F.base
+    match decodeFields M buf F.lastWord M.max 0 off with
+    | none => none
+    | some fsK =>
+      let e := enc M fsK off
+      if F.tail.take e.length = e ∧ (∀ c, c < M.max → F.lastWord.testBit c = (presentWord fsK).testBit c)
+      then some (F, fs0, fsK, F.tail.drop e.length) else none
 
 /-! ### what a parser of an options buffer may report (radiotap standard; used by the oracle of `walk` / `skipto`) -/
 
